@@ -30,7 +30,18 @@ RULE = ("deterministic boundary corpus (instants at the epoch, 2020, the 2^51 us
         "rebuilds in one fresh process with every live event re-observed after every step, timestamps as wall-clock "
         "fields + fold in zones with offset changes (6 synthetic PEP 495 zones, 8 tz database zones, every transition of "
         "4 years): both fold readings of repeated and of skipped wall times with ONE tzinfo object, interval edges, "
-        "the same instant written 8 ways, constructor defaults, data with 10 001 keys; "
+        "the same instant written 8 ways, constructor defaults, data with 10 001 keys; FAULTS the caller survives "
+        "(~75 hand-written sessions + seeded): a callee of an Event method (iso8601.parse_date, json.dumps, "
+        "JSONEncoder.encode, the dict copy, the caller's tzinfo.utcoffset, the naive-timestamp warning) raises once "
+        "(MemoryError / RecursionError / KeyboardInterrupt / ValueError / TypeError / OSError) inside the constructor, "
+        "the setters, _timestamp_parse, to_json_dict, to_json_str, Event(**json), Event(**event), and the natural "
+        "failures (5001-digit integer, data nested beyond the recursion limit, bytes / set values, tuple keys, a cycle; "
+        "nan / inf / str / Fraction durations; unparsable and out-of-range timestamps), then the same call again, "
+        "every live event re-observed against what it was given last; TWO THREADS (~130 hand-written sessions + "
+        "seeded; harness/twothreads.py): thread A suspended inside the callee while thread B runs a complete "
+        "operation (every string-parsing entry point x every string-parsing entry point with the same / different "
+        "strings, every serialising entry point x serialising the same / another event, assigning, constructing), the "
+        "live events observed while A is suspended and afterwards, with and without the observations in between; "
         "non-trivial = distinct case in which the ms floor changed the instant, the "
         "offset was non-zero, or the duration went through a float conversion; for a history observation: after a later "
         "step than the first")
@@ -298,6 +309,11 @@ def oracle_event(case, obs):
             return ("C13:construct", f"valid event input raised {obs['error']}")
         return None
     e = obs["event"]
+    if "held_type" in obs:
+        # whatever it was built from and whatever has been called on it since: an event that exists holds these two
+        return ("C13:held-type", "the event does not hold an aware datetime and a timedelta: " + obs["held_type"])
+    if "held_changed" in obs:
+        return ("C13:held-changed", obs["held_changed"])
     if tspec["instant"] is None:
         return None
     inst, off = tspec["instant"], tspec["off"]
@@ -323,6 +339,17 @@ def oracle_event(case, obs):
             return ("C13:duration", f"{dspec['x'].hex()} s became {k} us (exact {float(exact)})")
     if not in_time_domain:
         return None
+    if obs.get("unencodable"):
+        # the data given is not JSON data for this interpreter (harness/c13_hist.py: mat_data): the JSON clauses say
+        # nothing; rebuilding from the event itself must still give an equal event
+        if "e3" not in obs:
+            return ("C13:rebuild", f"Event(**event) raised {obs.get('e3_error')}")
+        e3 = obs["e3"]
+        try:
+            same = e3.id == e.id and e3.timestamp == e.timestamp and e3.duration == e.duration and (e3.data is e.data or e3.data == e.data)
+        except RecursionError:
+            same = e3.id == e.id and e3.timestamp == e.timestamp and e3.duration == e.duration
+        return None if same else ("C13:rebuild", "Event(**event) differs from the event")
     # JSON form
     if "json" not in obs:
         return ("C13:json", f"to_json_str / json.loads raised {obs.get('json_error')}")
